@@ -31,6 +31,20 @@ def make_value(ctx, prog, kind, name):
         _, D, P = kind
         arg = O.Arg('utpm', prog.shape, prog.dom)
         raw = O.make_input(ctx, arg, name, D, P)
+    if 'symmetric' in prog.tags:
+        n = prog.shape[0]
+        for i in range(n):
+            for j in range(i):
+                raw[..., i, j] = raw[..., j, i]
+    if any(t.startswith('fac:') for t in prog.tags):
+        # zeroth coefficient(s) constructed from the factors of the factorisation the program uses
+        from .c03 import factor_inputs
+        if kind == 'nd':
+            Z = np.empty((1, 1) + tuple(prog.shape), dtype=object)
+            Z[0, 0] = raw
+            raw = factor_inputs(ctx, prog, Z, name, 1)[0, 0]
+        else:
+            raw = factor_inputs(ctx, prog, raw, name, kind[2])
     if 'posdet' in prog.tags:
         for z in ([raw] if kind == 'nd' else [raw[0, p] for p in range(raw.shape[1])]):
             ctx.assume(z[0, 0] * z[1, 1] - z[0, 1] * z[1, 0] > 0)
@@ -317,10 +331,33 @@ def units(tier, seed):
         for i, (rec, reps) in enumerate(combos):
             if kink and i > 0:
                 continue
+            if 'utpmonly' in prog.tags:
+                # the program means something else on plain arrays (an element of an ndarray is a
+                # scalar copy, an element of a polynomial array is a view): polynomial operands only
+                if rec == 'nd':
+                    continue
+                reps = [r for r in reps if r != 'nd'] or [U22]
             if kink:
                 rec, reps = ('utpm', 2, 1), [('utpm', 2, 1)]
             out.append(Unit('C05/%s/rec=%s,replay=%s' % (prog.name, rec, reps), 'symx.props.c05', 'h_replay',
                             {'pname': prog.name, 'rec': rec, 'replays': reps}, dict(opts)))
+    # factorisations inside the program: recording and replay points are both built from factors
+    U21, U12 = ('utpm', 2, 1), ('utpm', 1, 2)
+    for prog in PR.catalogue():
+        if 'slow' in prog.tags or 'heavy' in prog.tags or not any(t.startswith('fac:') for t in prog.tags):
+            continue
+        # (polynomial operands only: on plain arrays the program calls numpy.linalg directly, whose
+        # LAPACK results the contract stubs do not model beyond the registered factors)
+        fcombos = [(U11, [U21, U12]), (U21, [U11, U21])] if tier != 'quick' else [(U11, [U21])]
+        if 'fac:svd' in prog.tags:
+            # (svd forks 16 ways per evaluation at D = 2: one recording/replay combination; the wide
+            # programs with a symbolic 3x3 rotation exceed the time limit)
+            if prog.shape == (2, 3) and 'fixedrot' not in prog.tags:
+                continue
+            fcombos = fcombos[:1]
+        for rec, reps in fcombos:
+            out.append(Unit('C05/%s/rec=%s,replay=%s' % (prog.name, rec, reps), 'symx.props.c05', 'h_replay',
+                            {'pname': prog.name, 'rec': rec, 'replays': reps}, dict(opts, crosscheck=False)))
     nrand = 8 if tier == 'quick' else 900
     for i in range(nrand):
         name = 'random(seed=%d,len=%d)' % (5000 + 1000 * seed + i, 3 + i % 6)
